@@ -18,6 +18,7 @@ def run(cmd, cwd, timeout=1200):
 
 def main():
     out, X = sys.argv[1], sys.argv[2]
+    tag = sys.argv[3] if len(sys.argv) > 3 else ""
     meta = json.load(open(os.path.join(out, X + ".meta.json")))
     prop = meta["property"]
     patch = os.path.join(out, X + ".patch.diff")
@@ -52,7 +53,7 @@ def main():
     ok = all(res.get(k) for k in ["applies", "builds", "suite_passes_with_change", "demo_fails_with_change", "demo_passes_without_change"])
     res["confirmed"] = ok
     if ok:
-        d = os.path.join("/verif/seeded", "%s-%s" % (prop, X))
+        d = os.path.join("/verif/seeded", "%s-%s%s" % (prop, tag, X))
         os.makedirs(d, exist_ok=True)
         shutil.copy(patch, os.path.join(d, "patch.diff"))
         shutil.copy(demo, os.path.join(d, "demo_test.go"))
